@@ -275,8 +275,11 @@ CHECKS = {
     "C16": {
         "level": "exploration",
         "technique": "online monitor over interposed mmap/mprotect requests with a per-mapping shadow protection map + /proc/self/maps snapshots at API boundaries",
-        "jobs": lambda tier: [{"variant": "opt", "sub": "c16", "shards": 16, "cases": T(tier, 3, 125), "args": {"ops": T(tier, 40, 60)}, "timeout": T(tier, 1800, 10800)}],
-        "rule": "a case is one API history (every third one on 2-4 threads) using only secure VMs ({JIT+SECURE, SECURE without JIT} x soft/hard AES x LARGE_PAGES x v1/v2) and any caches (JIT and non-JIT, with and without LARGE_PAGES): cache alloc/init/re-key/release, VM creation, single and pipelined hashes, re-binding, version switches, destruction; "
+        "jobs": lambda tier: [
+            {"variant": "opt", "sub": "c16", "shards": 14, "cases": T(tier, 3, 125), "args": {"ops": T(tier, 40, 60)}, "timeout": T(tier, 1800, 10800)},
+            {"variant": "opt", "sub": "c16", "shards": T(tier, 1, 3), "cases": T(tier, 6, 125), "args": {"ops": T(tier, 40, 60), "dataset": 1}, "timeout": T(tier, 1800, 10800), "weight": 8},
+        ],
+        "rule": "a case is one API history (every third one on 2-4 threads) using only secure VMs ({JIT+SECURE, SECURE without JIT} x soft/hard AES x LARGE_PAGES x v1/v2; some shards build a real dataset so that the FULL_MEM secure classes take part as well) and any caches (JIT and non-JIT, with and without LARGE_PAGES): cache alloc/init/re-key/release, VM creation, single and pipelined hashes, re-binding, version switches, destruction; "
                 "every mmap/mprotect the library issues is attributed to the mapping's owner (tag set by the creating API call) and must never carry WRITE and EXEC together for secure-VM-owned and cache-owned mappings; after every API call /proc/self/maps must contain no rwx line; a self-test first shows that the monitor does see the RWX request of a non-secure JIT VM; non-trivial = the history produced protection events; distinct by hash of the history",
         "assumptions": ["the harness binary is linked with a non-executable stack (-z noexecstack) so that /proc/self/maps snapshots are meaningful; librandomx's .S file lacks a .note.GNU-stack section, which would otherwise make the process stack executable - not a code buffer owned by the library, not judged"],
         "level_text": "Every protection request of every explored history is checked online against the W^X rule with the kernel's own view as a second reading. Histories are sampled: exploration.",
